@@ -70,6 +70,7 @@ def run(F, R):
     # Z10: returned values equal what the device reported: integer -> enum decoding tables agree with the enums' codes
     decode_tables_rule(F, R, 'Z10', ['device::'])
     z11_rtc(F, R, M, roles)
+    z12_mount_tag(F, R)
 
 
 def z1_encodings(F, R):
@@ -300,6 +301,16 @@ def z3_z4_gpu(F, R, M, roles):
             okc = bool(copies) and all(sg.always_before(copies, t_) for t_ in tr)
             R.check(okc, 'Z3', '%s:image-copied-before-transfer' % b['name'], fn_site(F, b['id']), 'the caller\'s image is copied into the backing before the transfer',
                     '%s transfers the backing to the host without first copying the caller\'s image into it: the device shows the zeroed allocation' % b['name'])
+        # ... and an image of any other length than the cursor size is refused: attach is reached only on the equal edge of the
+        # length comparison
+        if img and okpaths is not None:
+            for p in okpaths:
+                for c_ in p.conds:
+                    d = c_[0]
+                    if d[0] == 'bin' and d[1] in ('Ne', 'Eq') and any(x[0] == 'call' and x[2].endswith('::len') and derives_from(x, lambda y: y == ('param', img[0])) for x in subterms(d)):
+                        truth = (c_[1][0] == 'notin' and 0 in c_[1][1]) or (c_[1][0] == 'in' and 0 not in c_[1][1])
+                        R.check((d[1] == 'Eq') == truth, 'Z3', '%s:image-length-test' % b['name'], fn_site(F, b['id']), 'proceeds only when the image length equals the cursor size',
+                                '%s proceeds when the image length differs from the cursor size and refuses the correct length' % b['name'])
         # Z4 for operations that attach a freshly allocated region
         att = calls.get('resource_attach_backing', [])
         for a in att:
@@ -452,6 +463,43 @@ def z2_misc(F, R, M, roles):
                         good = False
                         why = 'the returned entropy length is %s, not the used length the device reported: a short read would be reported as a full buffer' % fmt(val)[:80]
             R.check(good, 'Z2', 'rng:shape', fn_site(F, b['id']), 'one device-writable buffer, returns the used length the device reported', why)
+
+
+def z12_mount_tag(F, R):
+    """9P mount tag: length read at config offset 0, each byte read at offset 2 + i for i below the length is appended,
+    and the returned string is built from exactly those bytes."""
+    n = 0
+    for b in F.bodies.values():
+        if not F.handwritten(b) or 'device::virtio_9p' not in b['id'] or b['kind'] not in ('Fn', 'AssocFn', 'Closure'):
+            continue
+        reads = [bl['term'] for bl in b['blocks'] if bl['term']['k'] == 'call' and bl['term'].get('trait') == TRANSPORT and bl['term'].get('method') == 'read_config_space']
+        if len(reads) < 2:
+            continue
+        n += 1
+        sg = supergraph(F, b['id'], tag='flat', max_depth=0)
+        S = sg.sym
+        rd = [c for c in sg.calls(lambda d: d.get('trait') == TRANSPORT and d.get('method') == 'read_config_space')]
+        offs = [S.operand(c.id, c.d['args'][1]) for c in rd]
+        len_reads = [c for c, o in zip(rd, offs) if fold_const(o) == 0]
+        byte_reads = [c for c, o in zip(rd, offs) if fold_const(o) is None and any(x[0] == 'bin' and x[1] in ('Add', 'AddWithOverflow') and 2 in (fold_const(x[2]), fold_const(x[3])) for x in subterms(o))]
+        pushes = [c for c in sg.calls(lambda d: d.get('fn', '').startswith('alloc::vec::Vec::') and d['fn'].endswith('::push'))]
+        pushed = [c for c in pushes if any(derives_from(S.operand(c.id, c.d['args'][1]), lambda x, r=r: x[0] == 'call' and x[1] == r.id) for r in byte_reads)]
+        be = back_edges(sg)
+        in_loop = set()
+        for (u, v) in be:
+            body, st = {v}, [u]
+            while st:
+                x = st.pop()
+                if x in body:
+                    continue
+                body.add(x)
+                st.extend(sg.nodes[x].pred)
+            in_loop |= body
+        ok = bool(len_reads) and bool(byte_reads) and bool(pushed) and all(c.id in in_loop for c in pushed) and all(c.id in in_loop for c in byte_reads)
+        R.check(ok, 'Z12', '%s:mount-tag' % b['id'], fn_site(F, b['id']), 'length at offset 0; every byte read at 2 + i is appended inside the loop',
+                'mount tag: length read at offset 0=%s, byte reads at 2+i=%d, bytes appended=%d (in the loop=%s): the returned tag is not what the device reported' % (
+                    bool(len_reads), len(byte_reads), len(pushed), all(c.id in in_loop for c in pushed)))
+    R.count('mount_tag_readers', n)
 
 
 def z5_pcm(F, R, M, roles):
@@ -679,6 +727,16 @@ def z11_rtc(F, R, M, roles):
                 leap = [x for x in f.values() if x[0] == 'agg' and x[1].startswith('core::option::Option::')]
                 tcond = [c for c in p.conds if fmt(c[0]).endswith('.type_') and c[1][0] == 'in' and len(c[1][1]) == 1]
                 scond = [c for c in p.conds if fmt(c[0]).endswith('.leap_second_smearing') and c[1][0] == 'in' and len(c[1][1]) == 1]
+                # alarm capability = bit 0 of the flags byte
+                for fname_, fv in f.items():
+                    if fv[0] != 'agg' and 'flags' in fmt(fv):
+                        for flags in (0, 1, 2, 3, 0xff):
+                            try:
+                                got_ = Folder(lambda t, flags=flags: flags if fmt(t).endswith('.flags') else (_ for _ in ()).throw(Unfoldable(fmt(t)[:40]))).ev(fv)
+                            except Unfoldable:
+                                got_ = None
+                            if got_ is not None and bool(got_) != bool(flags & 1):
+                                bad = 'flags %#x reported as alarm capability = %s' % (flags, bool(got_))
                 if kind:
                     kname = kind[0][1].rsplit('::', 1)[1]
                     if not tcond or tcond[-1][1][1][0] != RTC_CLOCK.get(kname):
